@@ -2,6 +2,6 @@ SPECIFICATION Spec
 CONSTANTS
   MaxArgs = 3
   Emit = TRUE
-INVARIANTS EachStageOnce FormsAgree EmitVec
+INVARIANTS EachStageOnce FormsAgree WriterOnlyLast EmitVec
 CONSTRAINT Bound
 CHECK_DEADLOCK FALSE
